@@ -89,7 +89,10 @@ func generate(dir string, p *synth.Program, sets bool) (files map[string]string,
 		if e.Pkg != pkgs[0].PkgPath || len(e.Exported) == 0 {
 			continue
 		}
-		fmt.Fprintf(&b, "\t\t\t%q: {%s},\n", e.Name, strings.Join(e.Exported, ", "))
+		// every constant of the enum is a legal column value, unexported ones
+		// included (the glue lives in the same package and can name them)
+		all := append(append([]string(nil), e.Exported...), e.Unexported...)
+		fmt.Fprintf(&b, "\t\t\t%q: {%s},\n", e.Name, strings.Join(all, ", "))
 	}
 	b.WriteString("\t\t},\n\t}\n}\n")
 	files["verif_glue.go"] = b.String()
